@@ -527,7 +527,7 @@ class SArr(rnp.ndarray):
         return res
 
     def __getitem__(self, key):
-        key = _fix_key(key)
+        key = _fix_key(key, self.shape)
         r = rnp.ndarray.__getitem__(self, key)
         return r
 
@@ -544,7 +544,7 @@ class SArr(rnp.ndarray):
                 old = rnp.ndarray.__getitem__(self, idx)
                 rnp.ndarray.__setitem__(self, idx, nv if c is True else (old if c is False else ite(c, nv, old)))
             return
-        key = _fix_key(key)
+        key = _fix_key(key, self.shape)
         if isinstance(val, rnp.ndarray) and _nd_dtype(val) != object:
             val = val.astype(object)
         elif isinstance(val, rnp.ndarray) and val.shape == () :
@@ -676,8 +676,38 @@ def _truth(r):
     return r
 
 
-def _fix_key(key):
-    """index keys: symbolic ints are realised; SBool masks are realised by forking."""
+def _has_sym_slice(k):
+    return isinstance(k, slice) and any(isinstance(x, SNum) for x in (k.start, k.stop, k.step))
+
+
+def _norm_bound(v, n, default):
+    """python's slice normalisation of one bound for an axis of length n (step 1): wrap negatives, clip to [0, n]."""
+    if v is None:
+        return default
+    if isinstance(v, SNum):
+        w = ite(v < 0, v + n, v)
+        w = sx_max(w, 0)
+        w = sx_min(w, n)
+        return core.concretize(w) if isinstance(w, SNum) else builtins.int(w)
+    return v
+
+
+def _fix_key(key, shape=None):
+    """index keys: symbolic slice bounds are normalised against the axis length first (so that only the finitely many
+    distinct outcomes are realised), symbolic ints are realised, SBool masks are realised by forking."""
+    if shape is not None and (_has_sym_slice(key) or (isinstance(key, tuple) and any(_has_sym_slice(k) for k in key))):
+        keys = key if isinstance(key, tuple) else (key,)
+        if all(isinstance(k, (slice, int, SNum, rnp.integer)) for k in keys) and len(keys) <= len(shape):
+            out = []
+            for ax, k in enumerate(keys):
+                if _has_sym_slice(k):
+                    if k.step not in (None, 1):
+                        raise SymxUnsupported('symbolic slice with a step')
+                    n = shape[ax]
+                    out.append(slice(_norm_bound(k.start, n, 0), _norm_bound(k.stop, n, n)))
+                else:
+                    out.append(_fix_key(k))
+            return tuple(out) if isinstance(key, tuple) else out[0]
     if isinstance(key, SNum):
         return core.concretize(key)
     if isinstance(key, slice):
